@@ -13,6 +13,7 @@ import (
 	"github.com/tigerwill90/fox"
 
 	"verif/ref"
+	"verif/stats"
 )
 
 // Trailing-slash option of a route or router.
@@ -317,3 +318,24 @@ func (r *Router) Serve(req *http.Request) Served {
 func (r *Router) ServeReq(q Req) Served { return r.Serve(NewRequest(q)) }
 
 var _ = io.Discard
+
+var openE = stats.OpenFinding("E-star-byte-prefers-catch-all")
+
+// ExcludedE is the signature of open finding E: the request path contains '*' and the method has both a
+// named parameter and a catch-all registered. While the finding is listed as open such requests are not judged.
+func ExcludedE(path string, pats []string) bool {
+	if !openE || !strings.Contains(path, "*") {
+		return false
+	}
+	p, c := false, false
+	for _, s := range pats {
+		for _, w := range ref.Wildcards(s) {
+			if w.CatchAll {
+				c = true
+			} else {
+				p = true
+			}
+		}
+	}
+	return p && c
+}
